@@ -772,7 +772,7 @@ def _pos_query(ctx, M, obj, s, e, flags, gen, mode):
         extra = {}
         if type(exc).__name__ == "EmptyLocationException" and M["win"] is not None:
             extra = _kept_model(x["keep"] + x["optional"], (max(x["bounds"][0], M["win"][0]), min(x["bounds"][1], M["win"][1])))
-        mech = (variant_slice_mechanism(extra["kept_model"], extra["expected_window"]) if extra else None) or "plain"
+        mech = (k19_label(repr(exc), extra["kept_model"], extra["expected_window"]) if extra else None) or "plain"
         ctx.check("pos.refusal", False, key=("valid-query-raised", type(exc).__name__, "vcoll+coding_only" if (co and any(m["t"] == "vcoll" for m in M["members"])) else mech),
                   exc=repr(exc)[:300], has_variant_collections=any(m["t"] == "vcoll" for m in M["members"]), **extra, **detail)
         return None
@@ -833,6 +833,16 @@ def variant_slice_mechanism(kept_model, win):
     return "+".join(sorted(labels)) or None
 
 
+def k19_label(exc_repr, kept_model, win):
+    """The K19 sub-mechanism that explains this EmptyLocationException, or None (then the violation stays unexplained)."""
+    if not (exc_repr or "").startswith("EmptyLocationException"):
+        return None
+    label = variant_slice_mechanism(kept_model, win) or ""
+    if "Variant incorporation led to an EmptyLocation" in exc_repr:      # raised by tx / CDS / feature .incorporate_variants
+        return "sliced-child" if "sliced-child" in label else None
+    return "sliced-variant" if "sliced-variant" in label else None       # bare exception from the variant's own (empty) location
+
+
 def _kind(mode):
     return "band" if mode.startswith("band") else "seq"
 
@@ -888,7 +898,7 @@ def _id_suite(ctx, M, obj, rs, pool_n, gen, mode):
                 if type(exc).__name__ == "EmptyLocationException" and M["win"] is not None:
                     # an id query can at most keep the sequence under the operand's own bounds
                     extra = _kept_model(expected, (max(M["start"], M["win"][0]), min(M["end"], M["win"][1])))
-                mech = (variant_slice_mechanism(extra["kept_model"], extra["expected_window"]) if extra else None) or "plain"
+                mech = (k19_label(repr(exc), extra["kept_model"], extra["expected_window"]) if extra else None) or "plain"
                 ctx.check("id.members", False, key=("raised", fn, type(exc).__name__, "kept-member-overhangs-bounds" if overhang else "inside", mech),
                           exc=repr(exc)[:300], kept_spans=[list(span(m)) for m in expected][:6], **extra, **detail)
                 continue
@@ -966,13 +976,6 @@ def classify(v):
     that the haplotype association then tries to lift (EmptyLocationException).  Re-derived from the witness: kept members' blocks,
     the result window, chunk-relative overlap of a variant collection with a gene / feature collection."""
     d = v.get("detail") or {}
-    exc = d.get("exc") or ""
-    if v["monitor"] in ("pos.refusal", "id.members") and exc.startswith("EmptyLocationException"):
-        label = variant_slice_mechanism(d.get("kept_model"), d.get("expected_window"))
-        label = label or ""
-        if "Variant incorporation led to an EmptyLocation" in exc:      # raised by tx / CDS / feature .incorporate_variants
-            if "sliced-child" in label:
-                return "K19-query-result-with-variants-and-a-sliced-away-child-cannot-be-built"
-        elif "sliced-variant" in label:                                   # bare EmptyLocationException from the variant's own location
-            return "K19-query-result-with-variants-and-a-sliced-away-child-cannot-be-built"
+    if v["monitor"] in ("pos.refusal", "id.members") and k19_label(d.get("exc") or "", d.get("kept_model"), d.get("expected_window")):
+        return "K19-query-result-with-variants-and-a-sliced-away-child-cannot-be-built"
     return None
